@@ -1,0 +1,57 @@
+//go:build verif
+
+package client
+
+import (
+	"reflect"
+	"sync/atomic"
+	"unsafe"
+)
+
+// VerifSetIdCounter fast-forwards the id allocator of the multiplexer for the
+// external verification harness (build tag "verif" only): the counter is set
+// to v, as far as its type can represent v, so that the next call is given the
+// id that follows. It goes through reflection so that it does not depend on
+// the declared width of the counter. It reports the width in bits of the
+// counter it found (0: no such field, nothing was set).
+func (rm *RpcMultiplexer) VerifSetIdCounter(v uint64) int {
+	f := reflect.ValueOf(rm).Elem().FieldByName("streamCounter")
+	if !f.IsValid() || !f.CanAddr() {
+		return 0
+	}
+	p := unsafe.Pointer(f.UnsafeAddr())
+	switch f.Kind() {
+	case reflect.Uint64:
+		atomic.StoreUint64((*uint64)(p), v)
+		return 64
+	case reflect.Int64:
+		atomic.StoreInt64((*int64)(p), int64(v))
+		return 64
+	case reflect.Uint32:
+		atomic.StoreUint32((*uint32)(p), uint32(v))
+		return 32
+	case reflect.Int32:
+		atomic.StoreInt32((*int32)(p), int32(v))
+		return 32
+	case reflect.Struct:
+		// atomic.Uint64 / atomic.Uint32 and the like: one integer field named v
+		if g := f.FieldByName("v"); g.IsValid() {
+			q := unsafe.Pointer(g.UnsafeAddr())
+			switch g.Kind() {
+			case reflect.Uint64:
+				atomic.StoreUint64((*uint64)(q), v)
+				return 64
+			case reflect.Int64:
+				atomic.StoreInt64((*int64)(q), int64(v))
+				return 64
+			case reflect.Uint32:
+				atomic.StoreUint32((*uint32)(q), uint32(v))
+				return 32
+			case reflect.Int32:
+				atomic.StoreInt32((*int32)(q), int32(v))
+				return 32
+			}
+		}
+	}
+	return 0
+}
